@@ -28,7 +28,27 @@ def true_blocked(mets, rxns):
     return {rid for rid, (lo, hi) in rng.items() if lo == 0 and hi == 0}
 
 
-def check_model(net, bounds, P, stats, rich=False):
+def check_model(net, bounds, P, stats, rich=False, origin=None):
+    out = _check_model(net, bounds, P, stats, rich, origin)
+    if origin:
+        for sg, cs, _ in out:
+            sg["origin"] = origin
+            cs["origin"] = origin
+    return out
+
+
+def _derive(model, origin, stats):
+    """The same model reached by another public route (mc/origins.py); None if the route itself failed."""
+    from .. import origins
+
+    try:
+        return origins.derive(model, origin)
+    except origins.OriginUnavailable:
+        stats["origin_unavailable"] = stats.get("origin_unavailable", 0) + 1
+        return None
+
+
+def _check_model(net, bounds, P, stats, rich=False, origin=None):
     from cobra.flux_analysis import fastcc, find_blocked_reactions
 
     mets, rxns = families.as_data(net, bounds)
@@ -41,6 +61,10 @@ def check_model(net, bounds, P, stats, rich=False):
     if blocked[False] and len(blocked[False]) < len(ids):
         stats["nontrivial"] = stats.get("nontrivial", 0) + 1
     model = families.build_model(mets, rxns, compartments=comp)
+    if origin:
+        model = _derive(model, origin, stats)
+        if model is None:
+            return out
     lists = [None] + [[i] for i in ids] + [list(p) for p in itertools.combinations(ids, 2)]
     objectives = [None] + [({r: 1}, d) for r in ids for d in (("max", "min") if rich else ("max",))]
     if not rich:
@@ -75,7 +99,7 @@ def check_model(net, bounds, P, stats, rich=False):
     first = None
     for oname, obj in (("none", None), ("max", ({ids[-1]: 1}, "max")), ("min", ({ids[-1]: 1}, "min")),
                        ("min0", ({ids[0]: 1}, "min"))):
-        got = check_fastcc(net, bounds, mets, rxns, ids, comp, blocked, obj, oname, stats, out)
+        got = check_fastcc(net, bounds, mets, rxns, ids, comp, blocked, obj, oname, stats, out, origin)
         if got is None:
             continue
         if first is None:
@@ -88,7 +112,7 @@ def check_model(net, bounds, P, stats, rich=False):
     return out
 
 
-def check_fastcc(net, bounds, mets, rxns, ids, comp, blocked, obj, oname, stats, out):
+def check_fastcc(net, bounds, mets, rxns, ids, comp, blocked, obj, oname, stats, out, origin=None):
     from cobra.flux_analysis import fastcc
 
     case = {"net": [list(c) for c in net], "bounds": [[_j(a), _j(b)] for a, b in bounds], "fastcc": True}
@@ -99,6 +123,10 @@ def check_fastcc(net, bounds, mets, rxns, ids, comp, blocked, obj, oname, stats,
     if obj is not None:
         model.objective = {model.reactions.get_by_id(r): c for r, c in obj[0].items()}
         model.objective_direction = obj[1]
+    if origin:
+        model = _derive(model, origin, stats)
+        if model is None:
+            return None
     from .. import observe
 
     before = observe.python_view(model)
@@ -122,7 +150,7 @@ def check_fastcc(net, bounds, mets, rxns, ids, comp, blocked, obj, oname, stats,
             sig["dropped"] = "reversible" if rev == dropped else "irreversible" if not rev else "mixed"
         out.append((sig, case, f"kept {got}, non-blocked {keep}\nmodel {rxns}"))
     else:
-        src = {r["id"]: r for r in before["reactions"]}
+        src = {r["id"]: r for r in before["reactions"]}  # noqa
         for r in cm.reactions:
             v = observe.reaction_view(r)
             for k in ("lb", "ub", "mets", "rule_genes", "table"):
@@ -179,6 +207,13 @@ def run_task(payload):
         net = tuple(tuple(c) for c in net)
         for bounds in families.bound_assignments(net, P["d"], P["menu"]):
             bounds = tuple((lb, ub) if lb <= 0 <= ub else (min(lb, 0), max(ub, 0)) for lb, ub in bounds)
+            if payload.get("origins"):
+                from .. import origins
+
+                for origin in origins.ORIGINS:
+                    stats["models_from_origins"] = stats.get("models_from_origins", 0) + 1
+                    violations.extend(check_model(net, bounds, P, stats, False, origin))
+                continue
             stats["models"] = stats.get("models", 0) + 1
             violations.extend(check_model(net, bounds, P, stats, payload.get("rich", False)))
     return {"violations": violations[:300], "stats": stats}
@@ -187,7 +222,7 @@ def run_task(payload):
 def replay(case):
     net = tuple(tuple(c) for c in case["net"])
     bounds = tuple((_u(a), _u(b)) for a, b in case["bounds"])
-    out = check_model(net, bounds, params("thorough"), {}, rich=True)
+    out = check_model(net, bounds, params("thorough"), {}, rich=True, origin=case.get("origin"))
     keys = [k for k in case if k not in ("net", "bounds")]
 
     def same(c):
@@ -204,6 +239,14 @@ def explore(ctx):
     off = ctx.seed % len(nets)
     nets = nets[off:] + nets[:off]
     payloads = [{"params": P, "nets": nets[i:i + 2], "rich": ctx.thorough} for i in range(0, len(nets), 2)]
+    # origins: the members with exactly three reactions, default bounds, reached by every other public route
+    from .. import origins
+
+    PO = dict(P, d=0)
+    no = [n for n in nets if len(n) == 3]
+    if ctx.tier == "quick":
+        no = no[::4]
+    payloads += [{"params": PO, "nets": no[i:i + 3], "origins": True} for i in range(0, len(no), 3)]
     sc = list(structured_cases())
     payloads += [{"params": P, "structured": True, "cases": sc[i:i + 20]} for i in range(0, len(sc), 20)]
     stats = {}
@@ -225,6 +268,9 @@ def explore(ctx):
                 "find_blocked_reactions; fastcc with default thresholds; exact FVA of the flux cone as oracle; "
                 "non-trivial = some but not all reactions truly blocked" % (P["nm"], P["nr"], P["d"], len(P["menu"])),
         "exhaustive": True, "networks": len(nets), "models": stats.get("models", 0), "exactlp_selftest_lps": n_self,
+        "origins_pass": "%d three-reaction networks x %d origins (%s): %d models; route itself failed for %d" % (
+            len(no), len(origins.ORIGINS), ", ".join(origins.ORIGINS), stats.get("models_from_origins", 0),
+            stats.get("origin_unavailable", 0)),
     })
     ctx.sample({"net": [list(c) for c in nets[0]]})
     ctx.assumptions += ["metabolites with a boundary reaction live in compartment e so that model.exchanges is the "
